@@ -975,6 +975,11 @@ impl Gen {
             v.push(Step::Probe { sender: b.owner.to_string(), funds: vec![], msg: ExecuteMsg::CancelBid { id: k.clone() } });
             v.push(Step::Probe { sender: exec.clone(), funds: vec![], msg: ExecuteMsg::ExpireBid { id: k.clone() } });
         }
+        // bids still in the old format (before a migration they are legitimately stuck; after an
+        // accepted one they must be as live as any other – the driver knows which is which)
+        for (k, owner) in w.old_bids() {
+            v.push(Step::Probe { sender: owner, funds: vec![], msg: ExecuteMsg::CancelBid { id: k.clone() } });
+        }
         v
     }
 
@@ -994,11 +999,12 @@ impl Gen {
                     QueryMsg::GetBid { id }
                 }
                 6 => {
-                    let g = self.rng.uuid();
+                    // another spelling of an id that is (or was) on the book, or of a fresh one
+                    let g = if !w.seen_asks.is_empty() && self.rng.pct(70) { self.rng.pick(&w.seen_asks).clone() } else { self.rng.uuid() };
                     QueryMsg::GetAsk { id: self.odd_id(w, &g) }
                 }
                 _ => {
-                    let g = self.rng.uuid();
+                    let g = if !w.seen_bids.is_empty() && self.rng.pct(70) { self.rng.pick(&w.seen_bids).clone() } else { self.rng.uuid() };
                     QueryMsg::GetBid { id: self.odd_id(w, &g) }
                 }
             };
